@@ -20,7 +20,7 @@ C17-1:C17:missed C17-2:C17:missed
 C19-1:C19:missed C19-2:C19:missed
 C20-1:C20:missed C20-2:C20:caught
 C22-1:C22:caught C22-2:C22:caught C22-3:C22:caught C22-4:C22:caught
-C26-1:C26:caught C26-2:C26:missed C26-3:C26:missed C26-4:C26:caught
+C26-1:C26:caught C26-2:C26:missed C26-3:C26:caught C26-4:C26:caught
 C27-1:C27:caught C27-2:C27:caught
 C28-1:C28:missed C28-2:C28:caught C28-3:C28:caught C28-4:C28:caught
 C34-1:C34:caught C34-2:C34:missed C34-3:C34:missed C34-4:C34:missed
